@@ -220,9 +220,9 @@ class Ref:
                                 k1, k2 = int(self.fam[6]), int(self.fam[8])
                                 al = sorted(node.args + node.keywords, key=lambda n: (n.lineno, n.col_offset))
                                 run = al[k1:len(al) - k2]
-                                for r in run:
+                                for k_, r in enumerate(run):
                                     r._placed = True
-                                    r._tpos = (x.lineno, x.col_offset)
+                                    r._tpos = (x.lineno, x.col_offset, k_)  # the run keeps its source order inside the slot
                                 v[i:i + 1] = [r for r in run if not isinstance(r, ast.keyword)]
                                 parent.keywords[0:0] = [r for r in run if isinstance(r, ast.keyword)]
                                 break
